@@ -12,7 +12,7 @@ PKG = "app/ts-meta/meta"
 MAPORDER_PKGS = ["lib/util/lifted/influx/meta", "app/ts-meta/meta"]
 MAPORDER_CACHE = os.path.join(checklib.VERIF, ".build", "C15", "maporder")
 DEPTH = {"quick": 3, "thorough": 4}
-DEADLINE = {"quick": 600, "thorough": 2700}
+DEADLINE = {"quick": 1200, "thorough": 2700}  # quick: ~100 s CPU-bound on an idle 16-core machine; the margin is for a loaded one
 # rounds from this depth on expand only the states whose shortest path consists of core-alphabet commands
 CORE_FROM = {"quick": 99, "thorough": 4}
 NROOTS = 5  # c15Roots(): one worker per root in round 0
